@@ -1,7 +1,7 @@
 #!/bin/bash
 # usage: seedimport.sh <Cxx> <k>   -- confirm /tmp/seed/Cxx/out/m<k>.* and store it as /verif/seeded/Cxx-m<k>/
 set -u
-P="$1"; K="$2"; SRC=/tmp/seed/$P/out; ID="$P-m$K"; OUT=/verif/seeded/$ID
+P="$1"; K="$2"; ROOT="${3:-/tmp/seed}"; OFF="${4:-0}"; SRC=$ROOT/$P/out; ID="$P-m$((K+OFF))"; OUT="${SEED_OUT:-/verif/seeded}/$ID"
 [ -f "$SRC/m$K.diff" ] || { echo "$ID: no diff"; exit 0; }
 export GOFLAGS=-mod=mod GOPROXY=off GOSUMDB=off GOTOOLCHAIN=local
 D=$(mktemp -d /tmp/seedi.XXXXXX)
